@@ -1,4 +1,5 @@
 import KafVerif.Lemmas.GroupEffect
+import KafVerif.Props.C14
 /-!
 C15 — Group state survives coordinator failover.
 
@@ -739,6 +740,75 @@ theorem _root_.KafVerif.C15.failover_preserves_view (ops : List Op) (hff : Fault
   have := KafVerif.C15.restore_build_view st (run init ops).clock hw.wf
   rw [cloneGroup_fixed] at this
   exact this
+
+/-- the state after `failover; load g`: the group table holds exactly the restored image -/
+theorem failover_load_lookup (ops : List Op) (hff : FaultFree ops) (g : Nat) (st : Group)
+    (h : lookup (run init ops).groups g = some st) :
+    lookup (run init (ops ++ [.failover, .load g])).groups g = some (restore fixed (build st) (run init ops).clock) := by
+  have hsn := sn_run ops hff
+  have hp := hsn.synced g st h
+  have hrun : run init (ops ++ [.failover, .load g]) = (step (step (run init ops) .failover).1 (.load g)).1 := by
+    unfold run; rw [List.foldl_append]; rfl
+  rw [hrun]
+  simp only [step, stepV]
+  have hl : loadGroup fixed { run init ops with groups := [] } g =
+      some ({ run init ops with groups := insert [] g (restore fixed (cloneGroup fixed (build st)) (run init ops).clock) },
+            some (restore fixed (cloneGroup fixed (build st)) (run init ops).clock)) := by
+    unfold loadGroup
+    simp only [lookup, hsn.nf.2.2, Bool.false_eq_true, if_false, hp]
+  simp only [hl]
+  simp [lookup_insert, cloneGroup_fixed]
+
+/-- **C15 (members keep working).** After a failover at any point of a fault-free history, a member of
+the current generation of a Stable group does not have to rejoin: its heartbeat is answered NONE and
+its sync is answered NONE with the same assignment the old coordinator held for it. -/
+theorem _root_.KafVerif.C15.members_keep_working (ops : List Op) (hff : FaultFree ops) (g mid : Nat) (st : Group) (m : Member)
+    (h : lookup (run init ops).groups g = some st) (hph : st.phase = .stable) (hm : lookup st.members mid = some m) :
+    (heartbeat fixed (run init (ops ++ [.failover, .load g])) g mid st.gen).2 = .code NONE ∧
+    (sync fixed (run init (ops ++ [.failover, .load g])) g mid st.gen).2 = .sync NONE (asgOf st mid) := by
+  have hff' : FaultFree (ops ++ [.failover, .load g]) := by
+    intro op hop k
+    rcases List.mem_append.mp hop with hop | hop
+    · exact hff op hop k
+    · simp at hop; rcases hop with rfl | rfl <;> simp
+  have hsn' := sn_run _ hff'
+  have hw : WFN st := (sn_run ops hff).inv.1 (g, st) (lookup_some_mem h)
+  have hlk := failover_load_lookup ops hff g st h
+  generalize run init (ops ++ [.failover, .load g]) = s2 at hsn' hlk
+  generalize hr : restore fixed (build st) (run init ops).clock = r at hlk
+  have hv : view r = view st := by
+    have := KafVerif.C15.restore_build_view st (run init ops).clock hw.wf
+    rw [cloneGroup_fixed, cloneGroup_fixed, hr] at this; exact this
+  have hgen : r.gen = st.gen := congrArg View.gen hv
+  have hphr : r.phase = .stable := by rw [← hph]; exact congrArg View.phase hv
+  have hmr : ∃ m', lookup r.members mid = some m' := by
+    have hmem : r.members = st.members.map fun e => (e.1, { e.2 with joinGen := if st.phase = .preparing then 0 else st.gen }) := by
+      rw [← hr]
+      unfold restore
+      simp only [ensureLeader_members, build, List.map_map, Function.comp_def]
+      apply List.map_congr_left
+      intro e he
+      have := hw.wf.session e he
+      simp [this, fixed]
+    rw [hmem, lookup_map_val, hm]; exact ⟨_, rfl⟩
+  obtain ⟨m', hm'⟩ := hmr
+  have hasg : asgOf r mid = asgOf st mid := by
+    rw [← hr]; exact asgOf_restore_build st _ mid (List.mem_map.mpr ⟨(mid, m), lookup_some_mem hm, rfl⟩)
+  constructor
+  · have hl : loadGroup fixed s2 g = some (s2, some r) := by unfold loadGroup; rw [hlk]
+    have hemp : (insert r.members mid { m' with lastHb := s2.clock }).isEmpty = false := by
+      cases hq : insert r.members mid { m' with lastHb := s2.clock } with
+      | nil => exact absurd hq (insert_ne_nil _ _ _)
+      | cons a t => rfl
+    unfold heartbeat
+    rw [hl]
+    simp only [hm', hgen, ne_eq, not_true_eq_false, if_false]
+    have hv43 : ¬ (fixed.c43Old = true ∧ ¬ r.phase = Phase.stable) := by intro hh; exact absurd hh.1 (by decide)
+    rw [if_neg hv43]
+    unfold persist
+    simp [hemp, setGroup, hsn'.nf.1, hphr]
+  · have := KafVerif.C14.sync_succeeds_when_stable fixed s2 g mid r m' hlk hphr hm' hsn'.nf.1
+    rw [hgen, hasg] at this; exact this
 
 /-- **C15 (pre-fix defect, witness).** With the old `cloneConsumerGroup` a group joined with a 20 s
 session and a 40 s rebalance timeout is restored with the 30 s defaults. -/
